@@ -180,3 +180,101 @@ def _mk_safelist(n):
 
 for _n in (1, 2, 3):
     _mk_safelist(_n)
+
+
+# ---------------------------------------------------------------------------------------------------------------- the ASSUMED effect contracts, exercised
+# The proofs above stand on assumed effect contracts of construct's parsers.  They are not provable here (library code), but they can be
+# EXERCISED: the real FileEntryConstruct / Int16ul are run on byte strings and the cursor effect and the exception classes they promise are
+# checked.  Bounded, never counted as proved; it narrows what "assumed" hides.
+CONCRETE = {}
+
+
+def _build_effects(inputs):
+    import io
+    from construct import Container, ConstructError, Int16ul
+    from smpl_extract.akai.file_entry import FileEntryConstruct
+    from smpl_extract.util.fat import RequestedInvalidSector
+
+    class _Sat:
+        def get_segment(self, start):
+            if start >= inputs.get("sat_size", 8):
+                raise RequestedInvalidSector()
+            return io.BytesIO(b"\x00" * 64)
+
+    def run():
+        data = bytes(inputs["bytes"])
+        st = io.BytesIO(bytes(inputs.get("prefix", 0)) + data)
+        st.seek(inputs.get("prefix", 0))
+        start = st.tell()
+        out = {"start": start}
+        try:
+            FileEntryConstruct.parse_stream(st, _=Container(sat=_Sat()), sat=_Sat())
+            out["entry"] = ("ok", st.tell() - start)
+        except BaseException as e:  # noqa
+            out["entry"] = (type(e).__name__, st.tell() - start, isinstance(e, (ConstructError, RequestedInvalidSector)))
+        st.seek(start)
+        try:
+            Int16ul.parse_stream(st)
+            out["i16"] = ("ok", st.tell() - start)
+        except BaseException as e:  # noqa
+            out["i16"] = (type(e).__name__, st.tell() - start, isinstance(e, ConstructError))
+        out["sizeof"] = FileEntryConstruct.sizeof()
+        return out
+    return {"call": run, "env": {}}
+
+
+def _oracle_effects(inputs, kind, val, env):
+    if kind != "return":
+        return ["oracle.must-not-raise"]
+    bad = []
+    n = len(inputs["bytes"])
+    e = val["entry"]
+    if e[0] == "ok":
+        if e[1] != 24:
+            bad.append(f"assumed.entry-parse-advances-by-24(advanced {e[1]})")
+    else:
+        if not e[2]:
+            bad.append(f"assumed.entry-parse-fails-only-with-ConstructError-or-RequestedInvalidSector({e[0]})")
+        if not (0 <= e[1] <= 24):
+            bad.append(f"assumed.entry-parse-failure-leaves-the-cursor-within-the-entry({e[1]})")
+    i = val["i16"]
+    if i[0] == "ok":
+        if i[1] != 2:
+            bad.append(f"assumed.int16-advances-by-2({i[1]})")
+    elif not i[2] or n >= 2:
+        bad.append(f"assumed.int16-fails-only-at-the-end-with-StreamError({i[0]}, {n} bytes)")
+    if val["sizeof"] != 24:
+        bad.append("assumed.sizeof-is-24")
+    return bad
+
+
+def _small_effects(tier, seed, shard=(0, 1)):
+    import random
+    rnd = random.Random(17000 + seed)
+    base = [10] * 12 + [0] * 4 + [0xF3, 10, 0, 0, 3, 0, 0, 0]
+    cases = [base, base[:23], base[:1], [], base[:16], [255] * 24, [0] * 24, base[:20] + [255, 255, 0, 0]]
+    for pos in range(24):
+        for v in (0, 1, 40, 41, 0x7F, 0x80, 0xFF):
+            c = list(base)
+            c[pos] = v
+            cases.append(c)
+    for _ in range(200 if tier == "quick" else 3000):
+        cases.append([rnd.randrange(256) for _ in range(rnd.choice((24, 24, 24, rnd.randrange(0, 24))))])
+    for k, c in enumerate(cases):
+        if k % shard[1] == shard[0]:
+            yield {"bytes": c, "prefix": (k % 3) * 5, "sat_size": 8}
+
+
+@contract("assumed:akai_entry_parse_effects", props=["C14", "C15"], abstract=True)
+def _ae(c):
+    pass
+
+
+CONCRETE["assumed:akai_entry_parse_effects"] = {
+    "build": _build_effects, "small": _small_effects, "oracle": _oracle_effects, "shards": 2,
+    "nontrivial": lambda i, s: s["kind"] == "return",
+    "bound": "the real FileEntryConstruct.parse_stream / Int16ul.parse_stream / sizeof on 24-byte entries with every byte position set to 7 corner values, "
+             "truncated entries of every length, 200 / 3000 random entries, start sectors inside and outside the allocation table: cursor effect and exception "
+             "classes promised by the ASSUMED contracts construct:FileEntryConstruct.parse_stream, construct:Int16ul.parse_stream, construct:FileEntryConstruct.sizeof",
+    "timeout_s": 5.0, "budget_quick": 60, "budget_thorough": 300,
+}
